@@ -5,7 +5,7 @@
  "enforce": ["crypto_entropy_read"],
  "replace": ["instantiate", "reseed", "generate"],
  "annotate": ["crypto/crypto_entropy.c"],
- "defines": ["VERIF_HALLOC"],
+ "defines": ["VERIF_HALLOC", "HM_DMAX=0", "HM_LOGN=1"],
  "models": ["models/drbg_hmac.c", "models/drbg_os.c"],
  "timeout": 300,
  "assumptions": ["instantiate, reseed, generate replaced by their contracts (each enforced in its own C11 group)",
@@ -23,7 +23,7 @@ h_read(void)
 	instantiated = inst0;
 	__CPROVER_assume(DR_INV);
 	IN(size_t, buflen);
-	__CPROVER_assume(buflen <= ((size_t)1 << 20));
+	__CPROVER_assume(buflen <= ((size_t)200000));
 	IN_BYTES(buf, buflen, 1);
 	g_ce_base = buf;
 	g_ce_done = 0;
@@ -40,6 +40,6 @@ h_read(void)
 	VCOVER(rc == 0 && inst0 == 1 && buflen == 3 * GENERATE_MAXLEN + 5 && ctr0 == RESEED_INTERVAL && g_ce_reseeds == rs0 + 1);
 	VCOVER(rc == -1 && inst0 == 1 && g_ce_gen_calls == gen0 + 2);
 	VCOVER(rc == -1 && inst0 == 0 && instantiated == 0);
-	VCOVER(rc == 0 && buflen == ((size_t)1 << 20));
+	VCOVER(rc == 0 && buflen == ((size_t)200000));
 	free(buf);
 }
